@@ -335,14 +335,14 @@ func c19ShapeFor(tier string) c19Shape {
 		return c19Shape{
 			chain:   []string{"", "a", "a.b", "a.b.c", "a.b.c.d"},
 			side:    []string{"x", "a.x", "a.b.x", "a.b.c.x"},
-			paths:   []string{"", "a", "a.b", "a.b.c", "a.b.c.d", "a.b.c.d.e", "x", "a.x", "a.b.x", "a.b.c.x", "a.x.y", "a.b.x.y", "x.y.z", "ab", "a.bb", "a.b.cc"},
+			paths:   []string{"", "a", "a.b", "a.b.c", "a.b.c.d", "a.b.c.d.e", "a.b.c.d.e.f", "a.b.c.d.e.f.e.f", "x", "a.x", "a.b.x", "a.b.c.x", "a.x.y", "a.b.x.y", "x.y.z", "ab", "a.bb", "a.b.cc"},
 			sources: []string{c19SrcSet, c19SrcYAML, c19SrcYAMLDefTop, c19SrcEnv, c19SrcDefault},
 		}
 	}
 	return c19Shape{
 		chain:        []string{"", "a", "a.b", "a.b.c"},
 		side:         []string{"x", "a.x", "a.b.x"},
-		paths:        []string{"", "a", "a.b", "a.b.c", "a.b.c.d", "x", "a.x", "a.b.x", "a.x.y", "ab", "a.bb"},
+		paths:        []string{"", "a", "a.b", "a.b.c", "a.b.c.d", "a.b.c.d.e", "a.b.c.d.e.f", "x", "a.x", "a.b.x", "a.x.y", "ab", "a.bb"},
 		sideTogether: true,
 		sources:      []string{c19SrcSet, c19SrcYAML, c19SrcYAMLDefTop, c19SrcEnv, c19SrcDefault},
 	}
@@ -355,9 +355,9 @@ func c19Rename(variant int, path string) string {
 	if variant == 0 || path == "" {
 		return path
 	}
-	letters := map[byte]string{'a': "strategies", 'b': "attestationdata", 'c': "best", 'd': "deeper", 'e': "east", 'x': "submitter", 'y': "multinode", 'z': "zone"}
+	letters := map[byte]string{'a': "strategies", 'b': "attestationdata", 'c': "best", 'd': "deeper", 'e': "east", 'f': "far", 'x': "submitter", 'y': "multinode", 'z': "zone"}
 	if variant == 2 {
-		letters = map[byte]string{'a': "a", 'b': "a", 'c': "a", 'd': "a", 'e': "a", 'x': "xa", 'y': "a", 'z': "xa"}
+		letters = map[byte]string{'a': "a", 'b': "a", 'c': "a", 'd': "a", 'e': "a", 'f': "a", 'x': "xa", 'y': "a", 'z': "xa"}
 	}
 	comps := strings.Split(path, ".")
 	for i, c := range comps {
